@@ -35,7 +35,7 @@ pub fn matches(p: &Primitive, v: &V, strict: bool) -> Result<(), String> {
         (Primitive::Null, V::Null) => Ok(()),
         (Primitive::Boolean(a), V::Bool(b)) if a == b => Ok(()),
         (Primitive::Integer(a), V::Int(b)) if a == b => Ok(()),
-        (Primitive::Number(a), V::Real(t)) if ulp_close(*a, real_value(t)) => Ok(()),
+        (Primitive::Number(a), V::Real(t)) if (strict && ulp_close(*a, real_value(t))) || *a == real_value(t) => Ok(()),
         (Primitive::Number(a), V::Int(b)) if !strict && *a == *b as f32 => Ok(()),
         (Primitive::Integer(a), V::Real(t)) if !strict && *a as f32 == real_value(t) => Ok(()),
         (Primitive::String(s), V::Str(b)) if s.as_bytes() == &b[..] => Ok(()),
